@@ -105,3 +105,10 @@ CLAIMS["C18"] = dict(
     note="Trusted: go/ssa value flow through slices/append/phi (append's first operand may alias, its variadic operand does not); Go's memory model for locks. Euclidean difference-form rule flags one specific unstable idiom only.",
     technique="static analysis: SSA guard-dominance and path queries over kernels/quantiser/arena, alias (backing-array provenance) tracking for slice escapes, typed-AST switch-arm agreement, lockset dataflow",
 )
+
+CLAIMS["C17"] = dict(
+    ref="DESIGN.md §4 C17",
+    text="Decides the shape of the gateway's admission decisions on every path of AIProxy.ServeHTTP and its helpers: the engine's scored search and the gateway agree on the unit (distance→similarity applied once, converted back once) before the value is compared with firewall_threshold / cache_threshold, and block/hit is returned only on the distance<threshold edge (UNI-1); every hand-off to the upstream reverse proxy and every cached reply lies behind the not-blocked edge of the deny-pattern check (given the whole extracted prompt) and, when an embedding is available, of the semantic check — the only exemption is an empty prompt (GRD-fw); patterns are compiled case-insensitively on every path, none is dropped, a match always blocks (GRD-pattern); a hit passes the TTL test, the cache is consulted only for non-streaming requests, replied from only on hit, and filled only with status-200 answers (GRD-cache); writer and readers of a cache entry agree on keys and JSON-stable types (SIB-cachekeys); invalidation deletes only behind the whole-id citation test (GRD-inval). What the regexes match, embedding values, nearest-neighbour exactness, and whether upstream is contacted at run time are NOT decided.",
+    note="Trusted: SSA control flow and the recognised conversion forms 1/(1+d), 1/s−1, (1−s)/s; scenario assumptions (firewall enabled, embedder configured and successful, non-empty vector, TTL>0, created_at present) are encoded as blocked edges and listed in the evidence. RAG query rewriting (the embedded text may be an LLM rewrite of the prompt) is outside the check.",
+    technique="static analysis: SSA guard-dominance path queries over the request pipeline, unit (conversion-parity) tracing across the engine/gateway boundary, writer/reader key-type agreement",
+)
